@@ -34,7 +34,15 @@ def pool (j : Json) : Except String PoolObs := do
   return { ac := ← int (← field j "ac"), ar := ← int (← field j "ar"), cons := ← int (← field j "cons"),
            capc := ← nat (← field j "capc"), capr := ← nat (← field j "capr"),
            A := ← (← arr (← field j "A")).mapM ctr, S := ← (← arr (← field j "S")).mapM sus,
-           D := ← natList (← field j "D"), done := ← nat (← field j "done") }
+           D := ← natList (← field j "D"), done := ← nat (← field j "done"),
+           snap := ← (match j.getObjVal? "K" with
+             | .ok k => do (← arr (← field k "snap")).mapM (fun r => do
+                 let l ← arr r
+                 return (← nat (← nth l 0), ← nat (← nth l 1), ← nat (← nth l 2), (← nat (← nth l 3)) != 0))
+             | .error _ => pure []),
+           victims := ← (match j.getObjVal? "K" with
+             | .ok k => do natList (← field k "victims")
+             | .error _ => pure []) }
 
 def world (j : Json) : Except String WorldObs := do
   return { st := ← states (← field j "st"), cnt := ← counts (← field j "cnt"), pools := ← (← arr (← field j "pools")).mapM pool }
